@@ -551,9 +551,9 @@ pub fn fam_serial(tier: Tier) -> Vec<Config> {
     let mut out = Vec::new();
     let d = Duration::from_secs(5);
     // where the serial tag sits
-    for place in ["scenario", "rule", "feature", "custom", "feature-rule"] {
+    for place in ["scenario", "rule", "feature", "custom", "feature-rule", "mixed-rule"] {
         for nconc in 1..=3usize {
-            if place == "feature-rule" && nconc == 3 {
+            if (place == "feature-rule" || place == "mixed-rule") && nconc == 3 {
                 continue;
             }
             for nser in 1..=2usize {
@@ -567,13 +567,16 @@ pub fn fam_serial(tier: Tier) -> Vec<Config> {
                                 if tier == Tier::Quick && nconc == 3 && !(retry == "delay" || retry == "delay2" || retry == "delayboth") {
                                     continue;
                                 }
-                                if place != "scenario" && layout == "same" {
+                                if place == "mixed-rule" && layout != "same" {
+                                    continue;
+                                }
+                                if place != "scenario" && place != "mixed-rule" && layout == "same" {
                                     // whole feature/rule serial: needs its own feature
                                     continue;
                                 }
                                 let tagname = if place == "custom" { "solo" } else { "serial" };
                                 let mut ser_tags: Vec<String> = vec![];
-                                if place == "scenario" || place == "custom" {
+                                if place == "scenario" || place == "custom" || place == "mixed-rule" {
                                     ser_tags.push(tagname.into());
                                 }
                                 match retry {
@@ -617,6 +620,15 @@ pub fn fam_serial(tier: Tier) -> Vec<Config> {
                                     _ => feat(ser.clone()),
                                 };
                                 match layout {
+                                    "same" if place == "mixed-rule" => {
+                                        // one rule holding serial and concurrent scenarios alike
+                                        let mut all = con.clone();
+                                        all.extend(ser.clone());
+                                        cfg.feats = vec![FeatSpec {
+                                            rules: vec![RuleSpec { tags: vec![], bg: vec![], scenarios: all }],
+                                            ..Default::default()
+                                        }];
+                                    }
                                     "same" => {
                                         let mut all = con.clone();
                                         all.extend(ser.clone());
@@ -1111,6 +1123,9 @@ pub fn fam_verdict(tier: Tier) -> Vec<Config> {
                             cfg.after = true;
                             cfg.conc_builder = Some(Some(2));
                             cfg.fail_fast_builder = *ff;
+                            // without hooks the World is created lazily by the first matched step:
+                            // its failures travel as step failures (no captures, no location)
+                            let nohooks_too = n >= 1 && allow == "none" && second == M && b_kind == M && !lazy && !swap;
                             cfg.lazy = lazy;
                             cfg.lazy_end = lazy;
                             if lazy {
@@ -1141,6 +1156,26 @@ pub fn fam_verdict(tier: Tier) -> Vec<Config> {
                                 }
                             }
                             chains.dedup();
+                            if nohooks_too {
+                                for wf in [Fault::WorldErr, Fault::WorldPanic] {
+                                    for tail in [vec![Fault::None], vec![wf], vec![Fault::Call(0, Outcome::PanicString)]] {
+                                        let mut chain = vec![wf];
+                                        chain.extend(tail);
+                                        let mut c = cfg.clone();
+                                        c.before = false;
+                                        c.after = false;
+                                        let Some((outcomes, worlds)) = chain_plan(&info, false, false, &chain) else {
+                                            continue;
+                                        };
+                                        c.plan.outcomes = outcomes;
+                                        c.plan.world_new = worlds;
+                                        c.conc_builder = Some(Some(1));
+                                        c.max_execs = 200;
+                                        c.name = format!("verdict/nohooks|n{n}|perr{perr:?}|ff{}|{chain:?}", u8::from(*ff));
+                                        out.push(c);
+                                    }
+                                }
+                            }
                             for chain in chains {
                                 let Some((outcomes, worlds)) = chain_plan(&info, true, true, &chain) else {
                                     continue;
@@ -1616,7 +1651,20 @@ pub fn fam_order(tier: Tier) -> Vec<Config> {
                     u8::from(custom),
                     u8::from(reverse)
                 );
+                // the same with a custom retry policy (`.retry_options(f)`) set before the hooks
+                let mut pol = cfg.clone();
+                pol.retry_policy = true;
+                pol.retries_builder = None;
+                pol.retry_filter_builder = None;
+                pol.feats[0].scenarios[0].tags.push("pol".into());
+                pol.plan.outcomes.clear();
+                pol.plan.outcomes.insert(
+                    infos[0].calls[1].key.clone(),
+                    vec![Outcome::PanicString, Outcome::PanicString, Outcome::Pass],
+                );
+                pol.name = format!("{}|policy", cfg.name);
                 out.push(cfg);
+                out.push(pol);
             }
         }
     }
